@@ -290,9 +290,13 @@ def check_encoder_table(prog, rep):
     I.K_ret = 16
 
     def hook(I_, s, call, cbody):
-        if call.ctx.body["path"] != body["path"]:
+        inner = call.ctx.body["path"] != body["path"]
+        if inner and not call.ctx.body["path"].startswith("packet::"):
             return
         p = call.path
+        if inner and p not in ("core::ptr::copy", "core::ptr::copy_nonoverlapping", "alloc::vec::Vec::<T, A>::extend_from_slice",
+                               "<alloc::vec::Vec<T, A> as core::iter::traits::collect::Extend<&'a T>>::extend"):
+            return      # in a private helper of the encoder only the copies count (e.g. a centralised `append_raw`)
         if p == "alloc::vec::Vec::<T>::with_capacity":
             s.ghost["pushes"] = ()
         elif p.startswith("<&u16 as core::ops::arith::Sub") and len(call.args) == 2:
@@ -397,8 +401,13 @@ def check_encoder_table(prog, rep):
                     grew = True
                 elif lo >= 1 and b_.entails(d - 1):
                     grew = True
+                # the same iteration seen from its end: header bytes pushed so far and the value length
+                ps_ = b_.ghost.get("pushes")
+                if ps_ and len(d.t) == 1 and d.t[0][1] == 1 and d.c == len(ps_):
+                    rows_back.append((b_.copy(), tuple(ps_), Aff.sym(d.t[0][0]), site))
             if not grew:
                 emit["bad"] += 1
+    rows_back = []
     I.loop_hooks.append(emit_hook)
     I, res = run(prog, body, args=[a0, lim], st=st, I=I)
     rep.ob("C01.4", "encoder|every-value-emitted", emit["bad"] == 0 and emit["backs"] >= 3,
@@ -407,6 +416,8 @@ def check_encoder_table(prog, rep):
            sample={"rule": "C01.4", "iteration_paths": emit["backs"]})
     ok_rows = 0
     classes = set()
+    if not rows:
+        rows = rows_back        # no `reserve(header + value)` idiom: the iterations as seen at the loop's back edges
     for s, pushes, ln, csite in rows:
         delta = s.ghost.get("delta")
         if delta is None or ln is None or not pushes:
